@@ -61,6 +61,11 @@ pub enum Target {
 }
 
 pub trait Inst: Send + Sync {
+    fn as_any(&self) -> &dyn std::any::Any;
+    /// `Clone::clone_from(self, other)` (in-place clone); false if the type is not Clone or `other` is another type.
+    fn clone_from_inst(&mut self, _other: &dyn Inst) -> bool {
+        false
+    }
     /// `Target::from(&self)` if this is an encrypt-only instance with such a conversion.
     fn convert_ref(&self, _target: Target) -> Option<Box<dyn Inst>> {
         None
@@ -253,12 +258,19 @@ impl<T: BlockSizeUser> DecDyn<T> for DecNo {
 
 pub trait CloneDyn<T> {
     fn try_clone(&self, t: &T) -> Option<T>;
+    fn clone_from(&self, _dst: &mut T, _src: &T) -> bool {
+        false
+    }
 }
 pub struct CloneYes;
 pub struct CloneNo;
 impl<T: Clone> CloneDyn<T> for CloneYes {
     fn try_clone(&self, t: &T) -> Option<T> {
         Some(t.clone())
+    }
+    fn clone_from(&self, dst: &mut T, src: &T) -> bool {
+        dst.clone_from(src);
+        true
     }
 }
 impl<T> CloneDyn<T> for CloneNo {
@@ -302,6 +314,15 @@ pub struct Wrap<T: BlockSizeUser + 'static> {
 }
 
 impl<T: BlockSizeUser + Send + Sync + 'static> Inst for Wrap<T> {
+    fn as_any(&self) -> &dyn std::any::Any {
+        self
+    }
+    fn clone_from_inst(&mut self, other: &dyn Inst) -> bool {
+        match other.as_any().downcast_ref::<Wrap<T>>() {
+            Some(o) => self.c.clone_from(&mut self.t, &o.t),
+            None => false,
+        }
+    }
     fn convert_ref(&self, target: Target) -> Option<Box<dyn Inst>> {
         let v = self.v?;
         Some(match target {
